@@ -9,6 +9,7 @@ TRUSTED = [
     'Coq 8.16.1 kernel (coqc, vm_compute); coqchk in thorough tier',
     'axioms: none (Print Assumptions must report "Closed under the global context" for every theorem of Props/C14.v)',
     'hand-written Gallina model Model/MsgFormat.v of lib/check/msgformat/{__init__,c,python,pybrace,perlbrace}.py: check_message pairing and the four check_args, over signatures',
+    'source translator tools/gen/gen_msgformat_src.py (python ast of the four check_args and of the tail of check_message -> Generated/MsgFormatSrc.v, fail-closed subset) with the Gallina meaning of that subset in Model/MsgFormatPy.v; the C14_source_tie_* theorems prove its output equal to the model',
     'the signatures themselves come from the real format-string parsers (subject of C11-C13)',
     'extraction (ExtrOcamlBasic only) + ocaml/driver.ml',
 ]
